@@ -20,6 +20,7 @@ import (
 	"go/ast"
 	"go/token"
 	"sort"
+	"strconv"
 )
 
 func c11pkgVars(x *Ctx, files []string) map[string]bool {
@@ -141,5 +142,74 @@ func init() {
 			x.Printf("(* %s *) %s", k, coqStr(k))
 		}
 		x.Printf("].\n\n")
+	}
+}
+
+// kind "c11_intlit": an integer literal argument of a call inside a function (or, with "or": true,
+// the literal L of an argument of the form `x|L`), emitted as a Coq N:
+//
+//	{"kind": "c11_intlit", "file": "content/file/file.go", "recv": "Store", "func": "ensureWriteDir",
+//	 "name": "ensureDirNoSymlink", "coq": "c11_write_dir_perm", "args": {"occ": 0, "index": 2}}
+//
+// The model's creation modes (0777 for the directories of a write path, mode|0700 for unpacked
+// directories) are these constants, not hand-copied numbers.
+func init() {
+	kinds["c11_intlit"] = func(x *Ctx, it Item) {
+		fd := findFunc(x.File(it.File), it.Recv, it.Func)
+		if fd == nil || fd.Body == nil {
+			fail("%s: function %s.%s not found", it.File, it.Recv, it.Func)
+		}
+		geti := func(k string) int {
+			if v, ok := it.Args[k].(float64); ok {
+				return int(v)
+			}
+			return 0
+		}
+		occ, index := geti("occ"), geti("index")
+		orForm, _ := it.Args["or"].(bool)
+		n := 0
+		var lit *ast.BasicLit
+		ast.Inspect(fd.Body, func(nd ast.Node) bool {
+			call, ok := nd.(*ast.CallExpr)
+			if !ok || lit != nil {
+				return true
+			}
+			name := ""
+			switch f := call.Fun.(type) {
+			case *ast.Ident:
+				name = f.Name
+			case *ast.SelectorExpr:
+				if id, ok := f.X.(*ast.Ident); ok {
+					name = id.Name + "." + f.Sel.Name
+				}
+			}
+			if name != it.Name {
+				return true
+			}
+			if n == occ && index < len(call.Args) {
+				arg := call.Args[index]
+				if orForm {
+					if be, ok := arg.(*ast.BinaryExpr); ok && be.Op == token.OR {
+						arg = be.Y
+					} else {
+						arg = nil
+					}
+				}
+				if bl, ok := arg.(*ast.BasicLit); ok && bl.Kind == token.INT {
+					lit = bl
+				}
+			}
+			n++
+			return true
+		})
+		if lit == nil {
+			fail("%s: %s.%s: argument %d of call #%d of %s is not an integer literal (or x|literal)", it.File, it.Recv, it.Func, index, occ, it.Name)
+		}
+		v, err := strconv.ParseInt(lit.Value, 0, 64)
+		if err != nil {
+			fail("%s: %s: bad integer literal %s", it.File, it.Func, lit.Value)
+		}
+		x.Printf("(* %s: %s.%s, argument %d of call #%d of %s = %s *)\n", it.File, it.Recv, it.Func, index, occ, it.Name, lit.Value)
+		x.Printf("Definition %s : N := %d%%N.\n\n", coqName(it), v)
 	}
 }
